@@ -645,8 +645,8 @@ func (in *interp) builtin(name string, v []jv.Val, apply func(int) func(jv.Val) 
 		if !ok {
 			return jv.VNull()
 		}
-		if !isASCII(s) {
-			return in.undet("case-mapping-non-ascii")
+		if !caseMappingPinned(s) {
+			return in.undet("case-mapping-special")
 		}
 		if name == "lower" {
 			return jv.VStr(strings.ToLower(s))
@@ -958,4 +958,34 @@ func sortedKeysA(m map[string][]jv.Val) []string {
 	}
 	sort.Strings(ks)
 	return ks
+}
+
+
+// caseMappingPinned reports whether upper/lower of s is determined. The
+// specification says "the uppercase string" and no more; the reading taken
+// here is the default case conversion of the Unicode Standard (section 3.13)
+// for characters whose conversion is a plain one-to-one mapping that does not
+// depend on context or language, which is what unicode.ToUpper / ToLower
+// tabulate. Characters with an entry in SpecialCasing.txt (one-to-many or
+// conditional mappings: sharp s, ligatures, Greek with ypogegrammeni, final
+// sigma, dotted capital I, ...) are left undetermined, so that an
+// implementation of the full mappings is as right as one of the simple ones.
+func caseMappingPinned(s string) bool {
+	for _, r := range s {
+		if r < 0x80 {
+			continue
+		}
+		if r == utf8.RuneError {
+			return false
+		}
+		switch {
+		case r == 0x00DF, r == 0x0130, r == 0x0131, r == 0x0149, r == 0x01F0, r == 0x0345, r == 0x0390, r == 0x03A3, r == 0x03B0, r == 0x03C2, r == 0x0587, r == 0x1E9E,
+			r >= 0x1E96 && r <= 0x1E9A, r >= 0x1F50 && r <= 0x1F56, r >= 0x1F80 && r <= 0x1FFC, r >= 0xFB00 && r <= 0xFB06, r >= 0xFB13 && r <= 0xFB17,
+			r >= 0x01C4 && r <= 0x01CC, r >= 0x01F1 && r <= 0x01F3, r >= 0x10D0 && r <= 0x10FF, r >= 0x1C90 && r <= 0x1CBF:
+			// (the last three ranges: title-case digraphs and Georgian, whose
+			// upper-case forms were added late and are not in every table)
+			return false
+		}
+	}
+	return true
 }
